@@ -183,7 +183,7 @@ PROPS = {
         "Oracle: a non-nil error in every faulted run. Every faulted run is non-trivial; distinct = hash of (document, k, granularity / writer).",
         ["faults are injected only into documents the reader accepts without fault, so a nil error can only mean the fault was swallowed",
          "for TTML, offsets after the end of the root element are out of scope (the decoder legitimately stops reading there)"],
-        shards=(6, 16), technique="fault injection with exhaustive enumeration of the fault offset: harness-controlled failing io.Reader / io.Writer, oracle = returned error must be non-nil; fault-free runs must hand over the complete output",
+        shards=(6, 16), cli=True, technique="fault injection with exhaustive enumeration of the fault offset: harness-controlled failing io.Reader / io.Writer, oracle = returned error must be non-nil; fault-free runs must hand over the complete output",
         text="For each listed document every byte offset is tried as the point of failure for all six readers, and for each (cue list, writer) pair every offset of the output for all five writers: complete for those documents; plus over-long lines and missing / uncreatable files.",
         note="Trusted: the failing reader / writer wrappers (40 lines).",
         design="5/C18", exhaustive_note=True),
